@@ -143,6 +143,8 @@ CASES = [
     ('nested_index', [([[1.0, 2.0], [3.0, 4.0]], Sym(1), Sym(0))]),
     ('enumerate_start', [(L([5, 6]),)]),
     ('any_positive_rate', [(np.array([0.0, 0.0]),), (np.array([0.0, 1.5]),)]),
+    ('comp_with_branching_helper', [(L([1, 3, 5, 0]),)]),
+    ('comp_with_ifexp', [(L([1, 3, 5, 0]),)]),
     ('minimum_clip', [(np.array([0.5, 2.0, 3.5]), 2.0)]),
     ('minimum_pair', [(np.array([0.5, 2.0]), np.array([1.0, 1.0]))]),
 ]
